@@ -23,12 +23,11 @@ Theorem C13_frag_same_stream : forall P c nonce evs1 evs2 os1 st1 p1 os2 st2 p2,
 Proof. exact frag_same_stream. Qed.
 Print Assumptions C13_frag_same_stream.
 
-(* every sequence of integers accepted for sending (non-negative ones on an encrypted link), every mode
+(* every sequence of integers accepted for sending (send_all = Some ...: Send returned true for each), every mode
    {auth} x {encr} x {chunked} x {select, nonblock}, every fragmentation and call schedule: delivered so far ++ still
    to come = the sequence sent -- unchanged, in order, exactly once *)
 Theorem C13_channel_roundtrip : forall P c iv ms w sst evs os st pipe,
   prims_ok P -> length iv = blklen P ->
-  (encr c = true -> Forall (fun m => 0 <= m) ms) ->
   send_all P c iv (sstate0 c iv) ms = Some (w, sst) ->
   fed evs = w ->
   run P c iv rstate0 [] evs = (os, st, pipe) ->
@@ -39,7 +38,6 @@ Print Assumptions C13_channel_roundtrip.
 (* ... and when the receiver has read everything and holds no complete record, all of them HAVE been delivered *)
 Theorem C13_roundtrip_complete : forall P c iv ms w sst evs os st,
   prims_ok P -> length iv = blklen P ->
-  (encr c = true -> Forall (fun m => 0 <= m) ms) ->
   send_all P c iv (sstate0 c iv) ms = Some (w, sst) ->
   fed evs = w ->
   run P c iv rstate0 [] evs = (os, st, []) ->
@@ -61,7 +59,6 @@ Print Assumptions C13_eventually_settled.
 (* ... hence every accepted sequence IS delivered completely, exactly once, in order, after any fragmentation *)
 Theorem C13_roundtrip_eventually : forall P c iv ms w sst evs os st pipe n os2 st2 p2,
   prims_ok P -> length iv = blklen P ->
-  (encr c = true -> Forall (fun m => 0 <= m) ms) ->
   send_all P c iv (sstate0 c iv) ms = Some (w, sst) ->
   fed evs = w ->
   run P c iv rstate0 [] evs = (os, st, pipe) ->
@@ -74,18 +71,21 @@ Print Assumptions C13_roundtrip_eventually.
 Theorem C13_stream_roundtrip : forall P c iv ms w sst,
   prims_ok P -> length iv = blklen P ->
   send_all P c iv (sstate0 c iv) ms = Some (w, sst) ->
-  stream_deliveries P c iv rstate0 w = expected c ms.
+  stream_deliveries P c iv rstate0 w = ms.
 Proof. exact stream_roundtrip. Qed.
 Print Assumptions C13_stream_roundtrip.
 
-(* the statement without the sign restriction is false: a negative integer is accepted by Send on an encrypted link and
-   never delivered (its sum with 2^256 falls below the hiding offset the receiver insists on) *)
-Theorem C13_roundtrip_negative_encrypted_refuted : forall P c iv m w sst,
-  prims_ok P -> length iv = blklen P -> encr c = true -> m < 0 ->
-  send_all P c iv (sstate0 c iv) [m] = Some (w, sst) ->
-  stream_deliveries P c iv rstate0 w = [].
-Proof. exact negative_encrypted_lost. Qed.
-Print Assumptions C13_roundtrip_negative_encrypted_refuted.
+(* a negative integer cannot be represented with the length-hiding offset: Send refuses it on an encrypted link
+   (None = returns false, nothing on the wire, sender state unchanged; /repo a02a2e8) -- so every integer ACCEPTED there
+   is non-negative and the round-trip theorems above need no sign premise *)
+Theorem C13_negative_encrypted_refused : forall P c iv st m, encr c = true -> m < 0 -> send P c iv st m = None.
+Proof. exact negative_encrypted_refused. Qed.
+Print Assumptions C13_negative_encrypted_refused.
+
+Theorem C13_accepted_nonnegative : forall P c iv ms st w st', encr c = true ->
+  send_all P c iv st ms = Some (w, st') -> Forall (fun m => 0 <= m) ms.
+Proof. exact accepted_nonnegative. Qed.
+Print Assumptions C13_accepted_nonnegative.
 
 (* a delivery under authentication needs the tag MAC(line || newline || sequence number) on the wire *)
 Theorem C13_accept_needs_tag : forall P c nonce k line tag m k', auth c = true ->
@@ -107,7 +107,7 @@ Print Assumptions C13_mac_input_injective.
    the MAC, see C13_iv_tamper in docs/C13.md); on a CTR link any block may stand in its place. *)
 Theorem C13_channel_integrity : forall P c iv iv' ms recs s evs os st pipe,
   prims_ok P -> length iv = blklen P -> length iv' = blklen P -> (ctr_mode c = false -> iv' = iv) ->
-  auth c = true -> (encr c = true -> Forall (fun m => 0 <= m) ms) ->
+  auth c = true ->
   trace P c iv (sstate0 c iv) ms recs -> no_forgery P 1 recs s ->
   fed evs = (if encr c then iv' else []) ++ s ->
   run P c iv rstate0 [] evs = (os, st, pipe) ->
@@ -117,7 +117,7 @@ Print Assumptions C13_channel_integrity.
 
 Theorem C13_stream_integrity : forall P c iv iv' ms recs s,
   prims_ok P -> length iv = blklen P -> length iv' = blklen P -> (ctr_mode c = false -> iv' = iv) ->
-  auth c = true -> (encr c = true -> Forall (fun m => 0 <= m) ms) ->
+  auth c = true ->
   trace P c iv (sstate0 c iv) ms recs -> no_forgery P 1 recs s ->
   exists n, stream_deliveries P c iv rstate0 ((if encr c then iv' else []) ++ s) = firstn n ms.
 Proof. exact stream_integrity. Qed.
@@ -184,7 +184,11 @@ Example C13_example_run :
   delivered os = toy_msgs /\ pipe = [] /\ r_buf st = [].
 Proof. intros c H. cbn [In] in H. destruct H as [<-|[<-|[<-|[<-|[]]]]]; vm_compute; auto. Qed.
 
-(* the refuted statement has a witness: -5 is accepted on an encrypted link *)
-Example C13_negative_accepted :
-  exists w sst, send_all toyP (cfg_of true true false false) [3; 9]%N (sstate0 (cfg_of true true false false) [3; 9]%N) [-5] = Some (w, sst).
-Proof. vm_compute. eauto. Qed.
+(* negative integers are accepted and delivered on a link without encryption, refused with it *)
+Example C13_negative_plain_accepted :
+  let c := cfg_of true false false false in
+  delivered (fst (fst (run toyP c [3; 9]%N rstate0 [] ([Feed (toy_wire c [-5; 7])] ++ repeat Call 6)))) = [-5; 7].
+Proof. vm_compute. reflexivity. Qed.
+Example C13_negative_encrypted_refused_example :
+  send toyP (cfg_of true true false false) [3; 9]%N (sstate0 (cfg_of true true false false) [3; 9]%N) (-5) = None.
+Proof. vm_compute. reflexivity. Qed.
